@@ -269,9 +269,19 @@ class Prop:
                 lines.append(("readInt %d" if rng.random() < 0.6 else "peekInt %d") % nb)
                 if nb <= clen and lines[-1].startswith("readInt"):
                     clen -= nb
-            elif k < 0.90:
+            elif k < 0.86:
                 st = rng.choice(["-", "0", str(rng.randrange(0, clen + 1)), str(clen)])
                 lines.append("%s %s" % (rng.choice(["findCRLF", "findEOL"]), st))
+            elif k < 0.90:
+                # a line end cut in two: CR is the last readable byte, a stale LF sits right behind the write index
+                d = bytearray(gen_bytes(rng.randrange(1 << 30), rng.choice([0, 1, 5, 30])))
+                for j in range(len(d)):
+                    if d[j] in (10, 13):
+                        d[j] = 65
+                lines.append("append h:" + (bytes(d) + b"\r\n").hex())
+                lines.append("unwrite 1")
+                clen += len(d) + 1
+                lines.append("%s %s" % (rng.choice(["findCRLF", "findCRLF", "findEOL"]), rng.choice(["-", "0"])))
             else:
                 n = size()
                 lines.append("readFd g:%d:%d" % (rng.randrange(1 << 30), n))
